@@ -426,6 +426,9 @@ def _run(ctx: Ctx, replay: Optional[str], t0: float) -> int:
 
     try:
         cases: List[Case] = harness.generate(ctx)
+        for c in cases:  # a case the harness could not describe is a harness failure, not a driver crash
+            if not all(isinstance(ln, str) for ln in c.lines):
+                raise TypeError(f"case {c.cid}: non-text line emitted by the harness: {[ln for ln in c.lines if not isinstance(ln, str)][:3]}")
     except Exception:  # noqa: BLE001 - the code under test made the harness itself fail
         import traceback
 
